@@ -2,6 +2,10 @@ import Okane.Model.ImportCsv
 import Okane.Lemmas.ImportTxn
 import Okane.Lemmas.ImportConvCsv
 import Okane.Lemmas.ImportCsvCells
+import Okane.Lemmas.ImportCsvCellsUse
+import Okane.Lemmas.CsvTextFacts
+import Okane.Lemmas.CsvTextTotal
+import Okane.Lemmas.CsvTextNormal
 /-!
 # C16 — CSV import books each row with the right sign, amount and balance
 
@@ -1164,6 +1168,299 @@ example :
       ⟨"Assets:Bank", .asset, none, "USD", {}, .oldToNew,
         [(.date, .index 1), (.amount, .index 3), (.payee, Cells.decodePos (.template "{amount}"))], []⟩
       ["d", "p", "a"] []).map' (List.map fun t => (t.payee, t.amount)) = .err .templateParseFailed := by
+  decide +kernel
+
+/-! ## from the FILE TEXT: the `csv` crate's record reader inside the model
+
+`Model/CsvText.lean` mirrors `csv-core`'s state machine under the reader options `csv::import` sets (flexible, delimiter =
+first byte of `format.delimiter`, quote `"` with doubling, `\r` / `\n` / `\r\n` line ends, header row), `read_line` skipping of
+`format.skip.head` lines, and the UTF-8 validation of `StringRecord`; `csvImportText` is `csv::import` from the BYTES of the
+file.  The theorems of this section say that the reader is total, that it inverts the canonical CSV writer (so every list of
+records is the reading of some file), and restate the CSV theorems above for `csvImportText` on that file. -/
+
+open CsvText
+
+/-- **C16_csv_reader_total.**  The reader is one table look-up per byte: from every state of the DFA table every byte is
+consumed (the epsilon closure that builds the table never runs out of fuel) and leads to a state of the table.  The reader
+has no error and no panic of its own. -/
+theorem C16_csv_reader_total (d c : UInt8) (s : Nfa) (h : TableState s) :
+    (dfaStep d s c).2 ≠ .epsilon ∧ TableState (dfaStep d s c).1 :=
+  dfaStep_consumes d c s h
+
+example : TableState .inDoubleEscapedQuote ∧ dfaStep COMMA .inDoubleEscapedQuote 98 = (.inField, .copyToOutput) :=
+  ⟨by simp [TableState], by decide⟩
+
+/-- **C16_csv_text_shape** (totality of the text layer): `csv::import` from bytes is an `IO` error (a skipped line is not
+UTF-8), a `CSV` error (the header is not UTF-8), or the importer model on the decoded header and records — all records, or the
+records in front of the first undecodable one, after which, if they all pass, the error is `CSV`. -/
+theorem C16_csv_text_shape (env : CsvEnv) (cfg : CsvCfg) (t : TextCfg) (file : Bytes) :
+    (skipHead t.skipHead.toNat file = .err .io ∧ csvImportTextFlagged env cfg t file = .err .io) ∨
+    ∃ rest, skipHead t.skipHead.toNat file = .ok rest ∧
+      ((decodeRecord (headerOf (readRecordsPos t.delimByte rest)) = none ∧ csvImportTextFlagged env cfg t file = .err .csv) ∨
+       ∃ header good bad, decodeRecord (headerOf (readRecordsPos t.delimByte rest)) = some header ∧
+         decodePrefix ((bodyOf (readRecordsPos t.delimByte rest)).map Prod.snd) = (good, bad) ∧
+         ((bad = false ∧ csvImportTextFlagged env cfg t file = csvImportFlagged env cfg header good) ∨
+          (bad = true ∧ ((∃ ts, csvImportFlagged env cfg header good = .ok ts ∧
+                            csvImportTextFlagged env cfg t file = .err .csv) ∨
+                          ((∀ ts, csvImportFlagged env cfg header good ≠ .ok ts) ∧
+                            csvImportTextFlagged env cfg t file = csvImportFlagged env cfg header good))))) :=
+  csvImportText_shape env cfg t file
+
+/-- **C16_csv_import_total.**  For every file (any bytes), configuration and decoder environment, `csv::import` from the bytes
+terminates without fuel, and the only panic it can reach is rust_decimal's division by zero (`amount / rate` with a zero rate
+cell under `compute` / `price_of_secondary`): the reader, the skipping, the field map, the templates and the record loop have no
+panic site and no unbounded loop. -/
+theorem C16_csv_import_total (env : CsvEnv) (cfg : CsvCfg) (t : TextCfg) (file : Bytes) :
+    csvImportText env cfg t file ≠ .fuelOut ∧ ∀ s, csvImportText env cfg t file = .panic s → s = divSite :=
+  csvImportText_total env cfg t file
+
+-- the panic is reachable from the text of a file (confirmed on the real importer: `Division by zero`): a computed
+-- `price_of_secondary` conversion whose rate cell is `0`
+example : (csvImportText (Cells.cellEnv (fun s => if s = "2024-01-02" then some ⟨2024, 1, 2⟩ else none) (fun _ _ => none))
+    ⟨"Assets:Bank", .asset, none, "USD", { amount := .compute, rate := .priceOfSecondary }, .oldToNew,
+     [(.date, .index 1), (.payee, .index 2), (.amount, .index 3), (.rate, .index 4), (.secondaryAmount, .index 5),
+      (.secondaryCommodity, .index 6)], []⟩ ⟨"", 0⟩
+    (utf8 "d,p,a,r,s,c\n2024-01-02,x,5,0,1,EUR\n")).map' List.length = .panic divSite := by decide +kernel
+
+-- the three outcomes occur: a skipped line that is not text, a header that is not text, a record that is not text
+example : (csvImportText exEnv (exCfg false .oldToNew) ⟨",", 1⟩ [0xFF, 10, 97, 10]).map' List.length = .err .io := by decide +kernel
+example : (csvImportText exEnv (exCfg false .oldToNew) ⟨",", 0⟩ [0xFF, 10, 97, 10]).map' List.length = .err .csv := by decide +kernel
+example : (csvImportText exEnv (exCfg false .oldToNew) ⟨",", 0⟩
+    (utf8 "date,payee,amount,charge,balance\n2024-01-02,shop,-50.00,,950.00\n" ++ [0xFF, 10])).map' List.length = .err .csv := by
+  decide +kernel
+
+/-- **C16_csv_read_write** (`readCsv (writeCsv rows) = rows`).  For a delimiter that is not the quote or a line end, rows with
+at least one cell that are not a lone empty cell, and a text that does not begin with a byte order mark, reading the canonical
+writer's text (a cell is quoted iff it contains the delimiter, a quote, `\r` or `\n`; quotes doubled; `\n` after each row) gives
+back exactly the rows, cell for cell, each stamped with the line on which it starts. -/
+theorem C16_csv_read_write (d : UInt8) (hd : GoodDelim d) (rows : List (List String)) (hrows : ∀ r ∈ rows, WritableText r)
+    (hbom : NoBom (writeCsv d rows)) :
+    (readRecords d (writeCsv d rows)).map decodeRecord = rows.map some ∧
+    readRecordsPos d (writeCsv d rows) = withLines d 1 (rows.map (List.map utf8)) := by
+  have hw : ∀ r ∈ rows.map (List.map utf8), WritableRow r := by
+    intro r hr
+    obtain ⟨r', hr', rfl⟩ := List.mem_map.1 hr
+    exact writableRow_of_text (hrows r' hr')
+  have h := readRecordsPos_write d hd (rows.map (List.map utf8)) hw hbom
+  refine ⟨?_, h⟩
+  unfold readRecords writeCsv
+  rw [h]
+  simp [decodeRecord_utf8]
+
+example : writeCsv COMMA [["date", "payee"], ["2024-01-02", "shop, \"the\"\nannex"], ["", ""]] =
+    utf8 "date,payee\n2024-01-02,\"shop, \"\"the\"\"\nannex\"\n,\n" := by decide +kernel
+example : (readRecordsPos COMMA (utf8 "date,payee\n2024-01-02,\"shop, \"\"the\"\"\nannex\"\n,\n")).map
+    (fun p => (p.1, decodeRecord p.2)) =
+    [(1, some ["date", "payee"]), (2, some ["2024-01-02", "shop, \"the\"\nannex"]), (4, some ["", ""])] := by decide +kernel
+
+/-- the side conditions are needed: a lone empty cell (or no cell) is an empty line, which the reader skips; a leading byte
+order mark is stripped; the quote or `\n` as delimiter break the writer's quoting -/
+theorem C16_csv_read_write_conditions_needed :
+    readRecords COMMA (writeCsvBytes COMMA [[[97]], [[]], [[98]]]) = [[[97]], [[98]]] ∧
+    readRecords COMMA (writeCsvBytes COMMA [[[97]], [], [[98]]]) = [[[97]], [[98]]] ∧
+    readRecords COMMA (writeCsvBytes COMMA [[[0xEF, 0xBB, 0xBF, 97]]]) = [[[97]]] ∧
+    readRecords QUOTE (writeCsvBytes QUOTE [[[], [97]]]) = [[[97, 10]]] ∧
+    readRecords LF (writeCsvBytes LF [[[97], [98]]]) = [[[97], [98], []]] :=
+  ⟨needs_not_lone_empty, needs_nonempty_row, needs_no_bom, needs_delim_not_quote, needs_delim_not_lf⟩
+
+/-- **C16_csv_normal_form.**  With the `csv` crate's own special case (a record that is a single empty field is written `""`)
+every list of records with at least one field each is the reading of its written text, for each of the three line ends; the
+reader never yields a record without fields; hence rewriting ANY file as the canonical text of its own reading does not change
+what is read (provided the rewritten text does not begin with a byte order mark). -/
+theorem C16_csv_normal_form (d : UInt8) (hd : GoodDelim d) (e : LineEnd) :
+    (∀ rows : List (List Bytes), (∀ r ∈ rows, r ≠ []) → NoBom (writeCsvQ d e rows) → readRecords d (writeCsvQ d e rows) = rows) ∧
+    (∀ bs : Bytes, ∀ r ∈ readRecords d bs, r ≠ []) ∧
+    (∀ bs : Bytes, NoBom (writeCsvQ d e (readRecords d bs)) →
+      readRecords d (writeCsvQ d e (readRecords d bs)) = readRecords d bs) :=
+  ⟨fun rows h hb => readRecords_writeQ d hd e rows h hb, fun bs => records_nonempty d bs,
+   fun bs hb => readRecords_normal d hd e bs hb⟩
+
+-- `"a"b,""`, blank lines, `""` alone, `c"d` without line end — and the normal form of that text
+example : readRecords COMMA (utf8 "\"a\"b,\"\"\r\n\r\n\"\"\nc\"d") = [[utf8 "ab", []], [[]], [utf8 "c\"d"]] ∧
+    writeCsvQ COMMA .lf [[utf8 "ab", []], [[]], [utf8 "c\"d"]] = utf8 "ab,\n\"\"\n\"c\"\"d\"\n" := by decide +kernel
+
+/-- **C16_csv_skip_head.**  `format.skip.head = n` consumes exactly `n` physical lines — empty, blank, or full of quotes and
+delimiters — and the reader starts on the byte after the `n`-th `\n`. -/
+theorem C16_csv_skip_head (lines : List Bytes) (rest : Bytes) (h : ∀ l ∈ lines, TextLine l) :
+    skipHead lines.length (lines.flatten ++ rest) = .ok rest :=
+  skipHead_lines lines rest h
+
+example : skipHead 3 (utf8 "\n   \nnot \"csv, at all\ndate,payee\n") = .ok (utf8 "date,payee\n") := by decide +kernel
+
+/-- a CSV file as the canonical writer produces it: `n = format.skip.head` lines of any text, then header and rows -/
+structure WrittenFile (t : TextCfg) (lines : List Bytes) (header : List String) (rows : List (List String)) : Prop where
+  hdelim : GoodDelim t.delimByte
+  hskip : t.skipHead = lines.length
+  hlines : ∀ l ∈ lines, TextLine l
+  hrows : ∀ r ∈ header :: rows, WritableText r
+  hbom : NoBom (writeCsv t.delimByte (header :: rows))
+
+/-- the bytes of the file -/
+def fileBytes (t : TextCfg) (lines : List Bytes) (header : List String) (rows : List (List String)) : Bytes :=
+  lines.flatten ++ writeCsv t.delimByte (header :: rows)
+
+/-- **C16_import_file** (the bridge).  The importer from the bytes of a written file IS the importer model on its header and
+rows: every list of records is the reading of some file, and everything proved of `csvImport` holds of files. -/
+theorem C16_import_file (env : CsvEnv) (cfg : CsvCfg) (t : TextCfg) (lines : List Bytes) (header : List String)
+    (rows : List (List String)) (w : WrittenFile t lines header rows) :
+    csvImportText env cfg t (fileBytes t lines header rows) = csvImport env cfg header rows ∧
+    csvImportTextFlagged env cfg t (fileBytes t lines header rows) = csvImportFlagged env cfg header rows :=
+  ⟨csvImportText_write env cfg t lines header rows w.hdelim w.hskip w.hlines w.hrows w.hbom,
+   csvImportTextFlagged_write env cfg t lines header rows w.hdelim w.hskip w.hlines w.hrows w.hbom⟩
+
+/-! ### non-vacuity: a statement with two skipped lines (one of them empty), a quoted payee with a delimiter and quotes -/
+
+def exTextCfg : TextCfg := ⟨",", 2⟩
+def exSkipped : List Bytes := [utf8 "Statement; \"exported, 2024\n", utf8 "\n"]
+def exFileRecords : List (List String) :=
+  [["2024-01-03", "refund, \"partial\"", "25.5", "", "975.50"], ["2024-01-02", "shop", "-50.00", "", "950.00"]]
+
+theorem exWritten : WrittenFile exTextCfg exSkipped exHeader exFileRecords where
+  hdelim := by decide +kernel
+  hskip := rfl
+  hlines := by
+    intro l hl
+    simp only [exSkipped, List.mem_cons, List.not_mem_nil, or_false] at hl
+    rcases hl with rfl | rfl
+    · exact ⟨⟨utf8 "Statement; \"exported, 2024", by decide +kernel, by decide +kernel⟩, by decide +kernel⟩
+    · exact ⟨⟨[], by decide +kernel, by decide +kernel⟩, by decide +kernel⟩
+  hrows := by decide +kernel
+  hbom := by decide +kernel
+
+example : fileBytes exTextCfg exSkipped exHeader exFileRecords =
+    utf8 ("Statement; \"exported, 2024\n\ndate,payee,amount,charge,balance\n" ++
+          "2024-01-03,\"refund, \"\"partial\"\"\",25.5,,975.50\n2024-01-02,shop,-50.00,,950.00\n") := by decide +kernel
+
+example : (csvImportText exEnv (exCfg false .newToOld) exTextCfg
+    (fileBytes exTextCfg exSkipped exHeader exFileRecords)).map' (List.map fun t => (t.date, t.payee, t.amount.value)) =
+    .ok [(⟨2024, 1, 2⟩, "shop", ⟨true, 5000, 2⟩), (⟨2024, 1, 3⟩, "refund, \"partial\"", ⟨false, 255, 1⟩)] := by
+  decide +kernel
+
+/-- **C16_order_file.**  `C16_order` for the file: the transactions come one per dated record in file order (`old_to_new`) or
+reversed (`new_to_old`); a statement that is monotone in the declared order comes out oldest first. -/
+theorem C16_order_file (env : CsvEnv) (cfg : CsvCfg) (t : TextCfg) (lines : List Bytes) (header : List String)
+    (rows : List (List String)) (w : WrittenFile t lines header rows) (txns : List Txn)
+    (h : csvImportText env cfg t (fileBytes t lines header rows) = .ok txns) :
+    ∃ fm ts, FieldMap.tryNew cfg.fields header = .ok fm ∧ csvRows env cfg fm rows = .ok ts ∧
+      txns = applyRowOrder cfg.rowOrder (ts.map Prod.fst) ∧
+      (DeclaredMonotone cfg.rowOrder (ts.map Prod.fst) → txns.Pairwise (fun a b => a.date ≤ b.date)) := by
+  rw [(C16_import_file env cfg t lines header rows w).1] at h
+  exact C16_order env cfg header rows txns h
+
+/-- **C16_sign_file.**  `C16_sign` for the file: every transaction of the import is the transaction of one row of the file,
+and the amount it books on the account is what the row's cells say — the `amount` cell (negated for a liability account; an
+empty cell is zero), or `+credit` when the credit cell is not empty and `−debit` otherwise. -/
+theorem C16_sign_file (env : CsvEnv) (cfg : CsvCfg) (t : TextCfg) (lines : List Bytes) (header : List String)
+    (rows : List (List String)) (w : WrittenFile t lines header rows) (txns : List Txn)
+    (h : csvImportText env cfg t (fileBytes t lines header rows) = .ok txns) :
+    ∃ fm, FieldMap.tryNew cfg.fields header = .ok fm ∧
+      ∀ tx ∈ txns, ∃ rec ∈ rows, ∃ v i, readRow env cfg fm rec = .ok (some v) ∧ buildTxn env cfg fm rec v = .ok (tx, i) ∧
+        tx.amount = ⟨v.amount, v.commodity⟩ ∧
+        (∀ f, fm.value = .amount f → ∃ cell x, fm.resolve .amount f rec = .ok (some cell) ∧
+          strToCommaDecimal env cell = .ok x ∧ (cfg.accountType = .asset → v.amount = x.getD {}) ∧
+          (cfg.accountType = .liability → v.amount = (x.getD {}).negate)) ∧
+        (∀ cf df, fm.value = .creditDebit cf df → ∃ credit debit,
+          fm.resolve .credit cf rec = .ok (some credit) ∧ fm.resolve .debit df rec = .ok (some debit) ∧
+          ((credit.isEmpty = false ∧ env.parseAmt credit = some v.amount) ∨
+           (credit.isEmpty = true ∧ debit.isEmpty = false ∧ ∃ dd, env.parseAmt debit = some dd ∧ v.amount = dd.negate))) := by
+  rw [(C16_import_file env cfg t lines header rows w).1] at h
+  obtain ⟨fm, hfm, hmem⟩ := csvImport_mem env cfg header rows txns h
+  refine ⟨fm, hfm, ?_⟩
+  intro tx htx
+  obtain ⟨rec, hrec, v, i, hrow, hb⟩ := hmem tx htx
+  have hamt := readRow_amount env cfg fm rec v hrow
+  refine ⟨rec, hrec, v, i, hrow, hb, ?_, ?_, ?_⟩
+  · obtain ⟨base, hbase, hcase⟩ := buildTxn_spec env cfg fm rec v tx i hb
+    have ha := (baseTxn_spec env cfg fm rec v base hbase).1
+    cases hsel : selectedConversion env cfg v with
+    | none => rw [hsel] at hcase; rw [hcase.1]; exact ha
+    | some conv =>
+      rw [hsel] at hcase
+      obtain ⟨r, sc, tr, _, _, _, htx', _⟩ := hcase
+      rw [htx']; exact ha
+  · intro f hf
+    exact C16_sign_amount env fm cfg.accountType rec f v.amount hf hamt
+  · intro cf df hf
+    exact C16_sign_credit_debit env fm cfg.accountType rec cf df v.amount hf hamt
+
+example := C16_order_file exEnv (exCfg false .newToOld) exTextCfg exSkipped exHeader exFileRecords exWritten
+example := C16_sign_file exEnv (exCfg false .newToOld) exTextCfg exSkipped exHeader exFileRecords exWritten
+
+/-- **C16_import_file_line_ends.**  The bridge for the files banks export: lines ending in `\n`, `\r\n` or `\r`, with or
+without a line end after the last row.  Reading the canonical text gives back the rows, and the importer from the bytes of
+`skipped lines ++ that text` is the importer model on header and rows. -/
+theorem C16_import_file_line_ends (env : CsvEnv) (cfg : CsvCfg) (t : TextCfg) (lines : List Bytes) (header : List String)
+    (rows : List (List String)) (e : LineEnd) (final : Bool) (hd : GoodDelim t.delimByte) (hskip : t.skipHead = lines.length)
+    (hlines : ∀ l ∈ lines, TextLine l) (hrows : ∀ r ∈ header :: rows, WritableText r)
+    (hbom : NoBom (writeCsvWith t.delimByte e final ((header :: rows).map (List.map utf8)))) :
+    readRecords t.delimByte (writeCsvWith t.delimByte e final ((header :: rows).map (List.map utf8))) =
+      (header :: rows).map (List.map utf8) ∧
+    csvImportText env cfg t (lines.flatten ++ writeCsvWith t.delimByte e final ((header :: rows).map (List.map utf8))) =
+      csvImport env cfg header rows := by
+  refine ⟨readRecords_writeWith t.delimByte hd e final _ ?_ hbom,
+    csvImportText_writeWith env cfg t lines header rows e final hd hskip hlines hrows hbom⟩
+  intro r hr
+  obtain ⟨r', hr', rfl⟩ := List.mem_map.1 hr
+  exact writableRow_of_text (hrows r' hr')
+
+-- the example statement with `\r\n` line ends and no line end after the last row
+example : exSkipped.flatten ++ writeCsvWith COMMA .crlf false ((exHeader :: exFileRecords).map (List.map utf8)) =
+    utf8 ("Statement; \"exported, 2024\n\ndate,payee,amount,charge,balance\r\n" ++
+          "2024-01-03,\"refund, \"\"partial\"\"\",25.5,,975.50\r\n2024-01-02,shop,-50.00,,950.00") := by decide +kernel
+example := C16_import_file_line_ends exEnv (exCfg false .newToOld) exTextCfg exSkipped exHeader exFileRecords .crlf false
+  exWritten.hdelim exWritten.hskip exWritten.hlines exWritten.hrows (by decide +kernel)
+
+/-- **C16_count_file** (record count).  A successful import of the bytes of ANY file yields exactly as many transactions as the
+file has records — as the reader model splits it, after the skipped lines and the header — with a non-empty date cell. -/
+theorem C16_count_file (env : CsvEnv) (cfg : CsvCfg) (t : TextCfg) (file : Bytes) (txns : List Txn)
+    (h : csvImportText env cfg t file = .ok txns) :
+    ∃ rest header records fm, skipHead t.skipHead.toNat file = .ok rest ∧
+      decodeRecord (headerOf (readRecordsPos t.delimByte rest)) = some header ∧
+      decodePrefix ((bodyOf (readRecordsPos t.delimByte rest)).map Prod.snd) = (records, false) ∧
+      FieldMap.tryNew cfg.fields header = .ok fm ∧
+      txns.length = (records.filter fun rec => !emptyDate fm rec).length :=
+  csvImportText_count env cfg t file txns h
+
+-- three records, one of them with an empty date cell (a trailer line), blank lines between them: two transactions
+example : (csvImportText exEnv (exCfg false .oldToNew) ⟨",", 0⟩ (utf8
+    "date,payee,amount,charge,balance\n\n2024-01-02,shop,-50.00,,950.00\n\n\n,total,,,\n2024-01-03,refund,25.5,,975.50")).map'
+    List.length = .ok 2 := by decide +kernel
+
+/-- **C16_short_record_line** (what `csv record length too short at line N` names).  A record with at most `fm.max()` cells
+aborts the import (`csvRow_short`); in a written file whose earlier rows are all long enough the line named is 1 + the number of
+`\n` bytes of the CSV part in front of the record — its physical line, counted from the header (the skipped lines are not
+counted), line breaks inside quoted cells included. -/
+theorem C16_short_record_line (d : UInt8) (hd : GoodDelim d) (size : Nat) (header : List String) (pre : List (List String))
+    (r : List String) (post : List (List String)) (hrows : ∀ x ∈ header :: (pre ++ r :: post), WritableText x)
+    (hbom : NoBom (writeCsv d (header :: (pre ++ r :: post)))) (hpre : ∀ p ∈ pre, size < p.length) (hr : r.length ≤ size) :
+    shortRecord size (bodyOf (readRecordsPos d (writeCsv d (header :: (pre ++ r :: post))))) =
+      some (1 + countLF (writeCsv d (header :: pre)), size, r.length) ∧
+    ∀ env cfg fm, fm.maxColumn = size → csvRow env cfg fm r = .err (.other "csv record length too short") := by
+  refine ⟨?_, fun env cfg fm hm => csvRow_short env cfg fm r (by omega)⟩
+  rw [(C16_csv_read_write d hd _ hrows hbom).2]
+  simp only [List.map_cons, List.map_append, withLines, bodyOf, List.drop_succ_cons, List.drop_zero]
+  rw [shortRecord_withLines d size r (post.map (List.map utf8)) hr pre _ hpre]
+  simp [writeCsv, writeCsvBytes, countLF_append, Nat.add_assoc]
+
+example : shortRecord 2 (bodyOf (readRecordsPos COMMA (utf8 "d,p,a\n2024-01-02,\"x\ny\",5\n2024-01-03,z\n"))) = some (4, 2, 2) := by
+  decide +kernel
+
+/-- in a `\r\n` file the line named lags: records stamped 1, 1, 2 where the same text with `\n` gives 1, 2, 3 -/
+theorem C16_crlf_line_lags :
+    (readRecordsPos COMMA [97, 13, 10, 98, 13, 10, 99, 13, 10]).map Prod.fst = [1, 1, 2] ∧
+    (readRecordsPos COMMA [97, 10, 98, 10, 99, 10]).map Prod.fst = [1, 2, 3] := crlf_line_lags
+
+/-- **C16_field_boundaries.**  Outside quotes the delimiter byte always closes the current cell; inside a quoted cell it is
+copied like any other byte; a quoted cell is ONE cell whatever it contains. -/
+theorem C16_field_boundaries (d : UInt8) (hd : GoodDelim d) :
+    (∀ s : Rd, TableState s.st → s.st ≠ .inQuotedField →
+      s.step d d = ⟨.endFieldDelim, [], s.fields ++ [s.cur], s.recs, s.line, s.recLine⟩) ∧
+    (∀ s : Rd, s.st = .inQuotedField → s.step d d = ⟨.inQuotedField, s.cur ++ [d], s.fields, s.recs, s.line, s.recLine⟩) ∧
+    (∀ f : Bytes, readRecords d (QUOTE :: escapeQuotes f ++ [QUOTE, LF]) = [[f]]) :=
+  ⟨fun s h1 h2 => delim_outside_quotes_splits d hd s h1 h2, fun s h => delim_inside_quotes_kept d hd s h,
+   fun f => quoted_field_one_cell d hd f⟩
+
+example : (readRecords COMMA (utf8 "a,\"b,c\",d\"e,f\n")).map decodeRecord = [some ["a", "b,c", "d\"e", "f"]] := by
   decide +kernel
 
 end Okane.Import
